@@ -196,6 +196,7 @@ def cases(rng, tier):
         base["special"] = False
         base["sidecar"] = rng.choice(["none", "none", "ok", "ok", "bad"]) if base["subs"] else "none"
         base["p2first"] = rng.random() < 0.3
+        base["mixswap"] = rng.getrandbits(16) if rng.random() < 0.35 else None   # legacy files keep p1/p2 as the user gave them: any order per axis
         yield base
     for s in SUFFIXES:
         yield dict(kind="suffix", suffix=s, sub=rng.getrandbits(32))
@@ -664,10 +665,19 @@ def tamper(path, how, c, rng):
 
 
 # ------------------------------------------------------------------------------ legacy files
+def _legacy_corners(c, r):
+    p1, p2 = (r.pmax.copy(), r.pmin.copy()) if c.get("p2first") else (r.pmin.copy(), r.pmax.copy())
+    if c.get("mixswap") is not None:
+        for a in range(len(p1)):
+            if (c["mixswap"] >> a) & 1:
+                p1[a], p2[a] = p2[a], p1[a]
+    return p1, p2
+
+
 def write_legacy(path, c, f):
     """the pre-0.90 layout, fabricated with h5py alone"""
     r = f.mesh.region
-    p1, p2 = (r.pmax, r.pmin) if c.get("p2first") else (r.pmin, r.pmax)
+    p1, p2 = _legacy_corners(c, r)
     with h5py.File(path, "w") as h:
         g = h.create_group("field")
         gm = g.create_group("mesh")
@@ -692,7 +702,7 @@ def write_legacy(path, c, f):
 
 def legacy_json(c, f, side):
     r = f.mesh.region
-    p1, p2 = (r.pmax, r.pmin) if c.get("p2first") else (r.pmin, r.pmax)
+    p1, p2 = _legacy_corners(c, r)
     sc = None
     if side is not None:
         sc = [dict(name=k, region=dict(pmin=numarr_json(np.asarray(v["pmin"])), pmax=numarr_json(np.asarray(v["pmax"])),
